@@ -454,96 +454,111 @@ func commonPrefix(a, b []byte) int {
 // one accessory, each with its own session, receive their own streams and are read alternately with small buffers:
 // each delivers exactly what ITS peer sent.
 func c07TwoConns(c *fw.Ctx) {
-	for _, closes := range []int{0, 1, 2, 3} {
-		for _, buf := range []int{1, 7, 4096} {
-			c.Eval(1)
-			cas := c07Case{Lens: []int{closes, buf}, Bufs: []int{buf}, TwoConns: true}
-			ctx := hap.NewContextForSecuredDevice(nil)
-			// earlier connections of the same accessory
-			for i := 0; i < 2; i++ {
-				old := hap.NewConnection(&scriptedConn{remote: fmt.Sprintf("10.0.0.7:%d", 4000+i)}, ctx)
-				old.Read(make([]byte, 8))
-				for k := 0; k < closes; k++ {
-					old.Close()
-				}
-			}
-			type side struct {
-				conn  *hap.Connection
-				plain []byte
-				got   []byte
-			}
-			var sides []*side
-			for i := 0; i < 2; i++ {
-				var secret [32]byte
-				copy(secret[:], pat(32, byte(90+i)))
-				_, c2a := refctl.SessionKeys(secret[:])
-				var ctr uint64
-				var stream, plain []byte
-				for j, n := range []int{40, 1025, 3} {
-					msg := pat(n, byte(50*i+j))
-					plain = append(plain, msg...)
-					stream = append(stream, refctl.Frames(c2a, &ctr, msg)...)
-				}
-				var segs []c07Seg
-				for off := 0; off < len(stream); off += 300 {
-					end := off + 300
-					if end > len(stream) {
-						end = len(stream)
+	laters := []int{0, 20}
+	if c.Thorough() {
+		laters = []int{0, 20, 300, 70000}
+	}
+	for _, later := range laters {
+		for _, closes := range []int{0, 1, 2, 3} {
+			for _, buf := range []int{1, 7, 4096} {
+				c.Eval(1)
+				cas := c07Case{Lens: []int{closes, buf, later}, Bufs: []int{buf}, TwoConns: true}
+				ctx := hap.NewContextForSecuredDevice(nil)
+				// earlier connections of the same accessory
+				for i := 0; i < 2; i++ {
+					old := hap.NewConnection(&scriptedConn{remote: fmt.Sprintf("10.0.0.7:%d", 4000+i)}, ctx)
+					old.Read(make([]byte, 8))
+					for k := 0; k < closes; k++ {
+						old.Close()
 					}
-					segs = append(segs, c07Seg{data: stream[off:end]})
 				}
-				sc := &scriptedConn{segs: segs, remote: fmt.Sprintf("10.0.0.8:%d", 5000+i)}
-				conn := hap.NewConnection(sc, ctx)
-				cs, err := hccrypto.NewSecureSessionFromSharedKey(secret)
-				if err != nil {
-					c.Infra(err.Error())
-					return
+				type side struct {
+					conn  *hap.Connection
+					plain []byte
+					got   []byte
 				}
-				ctx.GetSessionForConnection(sc).SetCryptographer(cs)
-				sides = append(sides, &side{conn: conn, plain: plain})
-			}
-			failed := false
-			for round := 0; round < 5000 && !failed; round++ {
-				progress := false
-				for i, sd := range sides {
-					if len(sd.got) >= len(sd.plain) {
-						continue
+				var sides []*side
+				for i := 0; i < 2; i++ {
+					var secret [32]byte
+					copy(secret[:], pat(32, byte(90+i)))
+					_, c2a := refctl.SessionKeys(secret[:])
+					var ctr uint64
+					var stream, plain []byte
+					for j, n := range []int{40, 1025, 3} {
+						msg := pat(n, byte(50*i+j))
+						plain = append(plain, msg...)
+						stream = append(stream, refctl.Frames(c2a, &ctr, msg)...)
 					}
-					b := make([]byte, buf)
-					var n int
-					var err error
-					if p := guard(func() { n, err = sd.conn.Read(b) }); p != nil {
-						c.Report("two-connections/panic", fmt.Sprintf("Read panics: %v", p), cas)
-						failed = true
-						break
+					var segs []c07Seg
+					for off := 0; off < len(stream); off += 300 {
+						end := off + 300
+						if end > len(stream) {
+							end = len(stream)
+						}
+						segs = append(segs, c07Seg{data: stream[off:end]})
 					}
-					sd.got = append(sd.got, b[:n]...)
-					if n > 0 {
-						progress = true
-					}
+					sc := &scriptedConn{segs: segs, remote: fmt.Sprintf("10.0.0.8:%d", 5000+i)}
+					conn := hap.NewConnection(sc, ctx)
+					cs, err := hccrypto.NewSecureSessionFromSharedKey(secret)
 					if err != nil {
-						if ne, ok := err.(net.Error); ok && ne.Timeout() {
+						c.Infra(err.Error())
+						return
+					}
+					ctx.GetSessionForConnection(sc).SetCryptographer(cs)
+					sides = append(sides, &side{conn: conn, plain: plain})
+				}
+				failed := false
+				for round := 0; round < 5000 && !failed; round++ {
+					progress := false
+					if round == 3 {
+						// while both are in the middle of their streams `later` more connections come and go (each accepted, read
+						// once, closed): a long-lived connection is not what pays for them
+						for i := 0; i < later; i++ {
+							lc := hap.NewConnection(&scriptedConn{remote: fmt.Sprintf("10.0.%d.9:%d", 1+i/60000, 1000+i%60000)}, ctx)
+							lc.Read(make([]byte, 8))
+							lc.Close()
+						}
+					}
+					for i, sd := range sides {
+						if len(sd.got) >= len(sd.plain) {
 							continue
 						}
-						c.Report(fmt.Sprintf("two-connections/error/closes=%d", closes), fmt.Sprintf("connection %d of two that are read alternately (after %d earlier connections were closed %d times each): Read returned %v after %d of %d bytes", i, 2, closes, err, len(sd.got), len(sd.plain)), cas)
-						failed = true
+						b := make([]byte, buf)
+						var n int
+						var err error
+						if p := guard(func() { n, err = sd.conn.Read(b) }); p != nil {
+							c.Report("two-connections/panic", fmt.Sprintf("Read panics: %v", p), cas)
+							failed = true
+							break
+						}
+						sd.got = append(sd.got, b[:n]...)
+						if n > 0 {
+							progress = true
+						}
+						if err != nil {
+							if ne, ok := err.(net.Error); ok && ne.Timeout() {
+								continue
+							}
+							c.Report(fmt.Sprintf("two-connections/error/closes=%d", closes), fmt.Sprintf("connection %d of two that are read alternately (after %d earlier connections were closed %d times each): Read returned %v after %d of %d bytes", i, 2, closes, err, len(sd.got), len(sd.plain)), cas)
+							failed = true
+							break
+						}
+					}
+					if !progress {
 						break
 					}
 				}
-				if !progress {
-					break
+				if failed {
+					continue
 				}
-			}
-			if failed {
-				continue
-			}
-			for i, sd := range sides {
-				if !bytes.Equal(sd.got, sd.plain) {
-					c.Report(fmt.Sprintf("two-connections/differs/closes=%d", closes), fmt.Sprintf("connection %d of two that are read alternately delivered %d bytes, %d of them as sent (its peer sent %d)", i, len(sd.got), commonPrefix(sd.got, sd.plain), len(sd.plain)), cas)
-					break
+				for i, sd := range sides {
+					if !bytes.Equal(sd.got, sd.plain) {
+						c.Report(fmt.Sprintf("two-connections/differs/closes=%d", closes), fmt.Sprintf("connection %d of two that are read alternately delivered %d bytes, %d of them as sent (its peer sent %d)", i, len(sd.got), commonPrefix(sd.got, sd.plain), len(sd.plain)), cas)
+						break
+					}
 				}
+				c.Class(fmt.Sprintf("two-connections/closes=%d/later=%d", closes, later))
 			}
-			c.Class(fmt.Sprintf("two-connections/closes=%d", closes))
 		}
 	}
 }
@@ -780,7 +795,7 @@ func init() {
 	fw.Register(&fw.Check{
 		ID:    "C07",
 		Level: "model_checking",
-		Rule:  "deviation-bounded exhaustive exploration of network behaviours for a real hap.Connection over a scripted net.Conn: message sequences of length 1–2 (thorough 1–3) over lengths {1,2,17,1023,1024,1025,2048,4095,4096,4097} × 6 caller-buffer policies (1, 7, 1024, 4096, 8192, net/http's 1-then-4096); 0 deviations = one segment per message; deviations = split at every byte offset, coalesce adjacent segments, read timeout before a segment, the application writing on the connection between caller reads; bound 1 completely, bound 2 for split+timeout, coalesce+split (thorough: all length pairs; every pair of splits for messages ≤1025). Plus the session-switch scenarios: every placement of 1–3 Read calls (blocked until data or aborted by a timeout) relative to the world steps install-cryptographer / write-response / first-ciphertext-arrives: the response must reach the wire in plaintext and the request must be delivered as its plaintext. Oracle per execution: exact byte equality, no EOF/error/close while the peer sends well-formed frames, and the promptness invariant (the network is asked for more only when every completely received frame has been handed to the caller). states = executions, distinct_nontrivial = distinct (deviation kind, message count, number of underlying reads) classes Frames WITHOUT data (length 0, valid tag) between and around messages, at every split offset. Two connections of one accessory read alternately after earlier connections were closed 0–3 times each: each delivers exactly what its peer sent. Session-switch scenarios are repeated for a SECOND pair-verify on a connection that is already encrypted (one request delivered under the first keys; the second exchange's response leaves under the first keys, what follows is read under the new ones). Plus, in a subprocess built with a scheduling point before EVERY statement of hc's packages (textual insertion through go build -overlay): every interleaving with at most 1 (thorough 2) preemptions of pairs of handlers / users of connections on one accessory (a verified and a newly accepted unverified connection; two writers, a writer and the reader of one encrypted connection, writers on two connections) — each side must observe exactly what it observes when the two run one after the other. Plus a long-lived connection (302 messages, frame counters up to 303). Plus the opposite corner: streams of 1–3 messages cut into equal pieces of 100, 333, 1000 bytes that do not line up with frames, with a read timeout before EVERY piece (up to 31 timeouts in one stream), for three buffer policies. Plus every sequence of ≤3 (thorough ≤4) SetDeadline / SetReadDeadline / SetWriteDeadline calls over the values {none, net/http's long-ago, two future instants} on the hap.Connection: after every call the read and write deadlines in force on the underlying socket are those a direct caller would have left (net/http sets and clears read deadlines around every request; one that stays in force makes later reads fail while frames arrive).",
+		Rule:  "deviation-bounded exhaustive exploration of network behaviours for a real hap.Connection over a scripted net.Conn: message sequences of length 1–2 (thorough 1–3) over lengths {1,2,17,1023,1024,1025,2048,4095,4096,4097} × 6 caller-buffer policies (1, 7, 1024, 4096, 8192, net/http's 1-then-4096); 0 deviations = one segment per message; deviations = split at every byte offset, coalesce adjacent segments, read timeout before a segment, the application writing on the connection between caller reads; bound 1 completely, bound 2 for split+timeout, coalesce+split (thorough: all length pairs; every pair of splits for messages ≤1025). Plus the session-switch scenarios: every placement of 1–3 Read calls (blocked until data or aborted by a timeout) relative to the world steps install-cryptographer / write-response / first-ciphertext-arrives: the response must reach the wire in plaintext and the request must be delivered as its plaintext. Oracle per execution: exact byte equality, no EOF/error/close while the peer sends well-formed frames, and the promptness invariant (the network is asked for more only when every completely received frame has been handed to the caller). states = executions, distinct_nontrivial = distinct (deviation kind, message count, number of underlying reads) classes Frames WITHOUT data (length 0, valid tag) between and around messages, at every split offset. Two connections of one accessory read alternately after earlier connections were closed 0–3 times each: each delivers exactly what its peer sent. Session-switch scenarios are repeated for a SECOND pair-verify on a connection that is already encrypted (one request delivered under the first keys; the second exchange's response leaves under the first keys, what follows is read under the new ones). Plus, in a subprocess built with a scheduling point before EVERY statement of hc's packages (textual insertion through go build -overlay): every interleaving with at most 1 (thorough 2) preemptions of pairs of handlers / users of connections on one accessory (a verified and a newly accepted unverified connection; two writers, a writer and the reader of one encrypted connection, writers on two connections) — each side must observe exactly what it observes when the two run one after the other. Plus a long-lived connection (302 messages, frame counters up to 303). Plus the opposite corner: streams of 1–3 messages cut into equal pieces of 100, 333, 1000 bytes that do not line up with frames, with a read timeout before EVERY piece (up to 31 timeouts in one stream), for three buffer policies. Plus every sequence of ≤3 (thorough ≤4) SetDeadline / SetReadDeadline / SetWriteDeadline calls over the values {none, net/http's long-ago, two future instants} on the hap.Connection: after every call the read and write deadlines in force on the underlying socket are those a direct caller would have left (net/http sets and clears read deadlines around every request; one that stays in force makes later reads fail while frames arrive); the alphabet of these sequences also holds the three kinds of write (a response piece, a notification on an idle connection, a notification kept during a response and flushed at its end): none of them changes the read deadline. The two alternately read connections also survive 20 (thorough 300, 70000) further connections that come and go while both are in mid-stream.",
 		Run:   c07Run,
 		Replay: func(c *fw.Ctx, raw json.RawMessage) {
 			var dc dlcheck.Case
